@@ -685,6 +685,7 @@ func (u *Unit) callFunc(st *State, call *ast.CallExpr, fn *types.Func) []Value {
 		}
 	}
 	cs.args = u.evalArgs(st, call, sig)
+	u.newMethodArgs(cs)
 	if u.anchorsApply() && u.spec != nil && (len(u.spec.Ghost) > 0 || len(u.spec.Asserts) > 0) {
 		extra := map[string]Value{}
 		for i, a := range cs.args {
@@ -844,6 +845,53 @@ var pureExternalPkgs = map[string]bool{
 	"unicode/utf8": true, "bytes": true, "sort": false, "net/url": true, "crypto": true, "runtime": true, "log": true,
 	"encoding/binary": true, "github.com/kr/fs": true, "hash": false, "crypto/sha256": true, "crypto/sha512": true, "os/signal": true, "reflect": true,
 	"text/tabwriter": false, "encoding/json": false, "gopkg.in/cheggaaa/pb.v1": true,
+}
+
+// newMethodArgs: a value of a repository type that has gained a method since the baseline is handed to code outside
+// the repository. Library functions look for optional interfaces (io.Copy: WriterTo / ReaderFrom, ...), so what
+// the call does with the value may now go through that method, which no contract describes: the unit can not be
+// decided (treated like a call of a new helper without contract).
+func (u *Unit) newMethodArgs(cs *callSite) {
+	if len(u.eng.newMethods) == 0 || cs.fn == nil || cs.fn.Pkg() == nil || u.eng.allRepoPkgs()[cs.fn.Pkg().Path()] {
+		return
+	}
+	seen := func(t types.Type) {
+		if t == nil {
+			return
+		}
+		if p, ok := t.Underlying().(*types.Pointer); ok {
+			t = p.Elem()
+		}
+		if p, ok := t.(*types.Pointer); ok {
+			t = p.Elem()
+		}
+		n, ok := t.(*types.Named)
+		if !ok {
+			return
+		}
+		ms := u.eng.newMethods[typeKey(n)]
+		if len(ms) == 0 {
+			return
+		}
+		msg := fmt.Sprintf("method %s (new since the baseline) of a value handed to %s", strings.Join(ms, ", "), funcKey(cs.fn))
+		root := u
+		for root.parent != nil {
+			root = root.parent
+		}
+		for _, h := range root.newHelpers {
+			if h == msg {
+				return
+			}
+		}
+		root.newHelpers = append(root.newHelpers, msg)
+		if root != u {
+			u.newHelpers = append(u.newHelpers, msg)
+		}
+	}
+	for i, a := range cs.call.Args {
+		_ = i
+		seen(u.typeOf(a))
+	}
 }
 
 func (u *Unit) externalCall(st *State, cs *callSite) []Value {
